@@ -189,13 +189,13 @@ class Ctx:
             if m is None or st is None or int(m["done"]) != n:
                 raise CheckError("trace validation of %s by %s did not consume the whole trace (%s of %d):\n%s"
                                  % (path, trace_module, m and m.get("done"), n, tail(out)))
-            return path, n, [int(x) for x in m["bad"]], st
+            return path, n, [int(x) for x in m["bad"]], st, set(int(x) for x in m.get("alt", m["bad"]))
 
         t = time.time()
         with ThreadPoolExecutor(max_workers=par) as ex:
             results = list(ex.map(one, shards))
         nev = nbad = 0
-        for path, n, bad, st in results:
+        for path, n, bad, st, altset in results:
             self.states += st[1]
             self.transitions += st[0]
             nev += n
@@ -203,7 +203,11 @@ class Ctx:
             with open(path) as f:
                 for i, line in enumerate(f, 1):
                     if i in badset:
-                        self.rejected.append((stage, os.path.basename(path), i, json.loads(line)))
+                        ev = json.loads(line)
+                        if i not in altset:
+                            # rejected under the property, accepted under the recorded-defect semantics of the spec
+                            ev["_alt"] = 1
+                        self.rejected.append((stage, os.path.basename(path), i, ev))
                         nbad += 1
                     else:
                         if '"nt":1' in line:
